@@ -84,7 +84,7 @@ func BinaryOrder(buf []byte) ByteOrder {
 
 // IsTiffLittleEndian checks the buf for the Tiff LittleEndian Signature
 func isTiffLittleEndian(buf []byte) bool {
-	return string(buf[:4]) == "II*\000"
+	return len(buf) >= 4 && string(buf[:4]) == "II*\000"
 	//return buf[0] == 0x49 &&
 	//	buf[1] == 0x49 &&
 	//	buf[2] == 0x2a &&
@@ -93,7 +93,7 @@ func isTiffLittleEndian(buf []byte) bool {
 
 // IsTiffBigEndian checks the buf for the TiffBigEndianSignature
 func isTiffBigEndian(buf []byte) bool {
-	return string(buf[:4]) == "MM\000*"
+	return len(buf) >= 4 && string(buf[:4]) == "MM\000*"
 	//return buf[0] == 0x4d &&
 	//	buf[1] == 0x4d &&
 	//	buf[2] == 0x00 &&
